@@ -167,4 +167,7 @@ def subs(tier):
             doc='dump -> line.unframe -> load with matching parser, field by field'),
         Sub('files', check_files, gen=lambda: case_gen(files=True), examples={'quick': 60, 'thorough': 1500},
             doc='dump_to_file -> load_from_file (utf-8), files crossing the 64 KiB read chunk'),
-    ]
+    ] + ([] if tier != 'thorough' else [
+        Sub('fuzz', check_memory, fuzz='c18', fuzz_runs={'thorough': 960000},
+            doc='atheris/libFuzzer campaign on dump -> parse_line (rxsci instrumented: the quoting/merging branches give a coverage gradient)'),
+    ])
